@@ -9,6 +9,8 @@ import vlib
 RECT = [(1.25, -0.45), (1.25, 0.45), (1.75, 0.45), (1.75, -0.45)]                      # clockwise as given
 SLANT = [(1.22, -0.50), (1.20, 0.42), (1.50, 0.52), (1.80, 0.40), (1.78, -0.44), (1.50, -0.56)]
 W2 = [(1.2, -0.5), (1.2, 0.5), (1.8, 0.5), (1.8, -0.5)]
+# a limiter-like section that cuts into the scrape-off layer away from the targets
+LIMITER = [(1.25, -0.45), (1.25, 0.45), (1.75, 0.45), (1.75, 0.12), (1.668, 0.12), (1.668, -0.06), (1.75, -0.06), (1.75, -0.45)]
 
 
 def subdivide(w, k):
@@ -73,7 +75,8 @@ def specs_for(tier):
     S = [("rect-cw nonorth cdn", gridlab.tokamak_spec("cdn", options={"orthogonal": False}, wall=RECT, extract=ex)),
          ("slanted-ccw nonorth cdn", gridlab.tokamak_spec("cdn", options={"orthogonal": False}, wall=SLANT[::-1], extract=ex)),
          ("rect-cw orth lsn", gridlab.tokamak_spec("lsn", wall=RECT, extract=ex)),
-         ("slanted-cw orth udn", gridlab.tokamak_spec("udn", wall=SLANT, extract=ex))]
+         ("slanted-cw orth udn", gridlab.tokamak_spec("udn", wall=SLANT, extract=ex)),
+         ("limiter-section orth lsn", gridlab.tokamak_spec("lsn", options={"psinorm_sol": 1.2}, wall=LIMITER, extract=ex))]
     if tier == "thorough":
         S += [("slanted-cw nonorth cdn", gridlab.tokamak_spec("cdn", options={"orthogonal": False}, wall=SLANT, extract=ex)),
               ("rect-fine nonorth cdn", gridlab.tokamak_spec("cdn", options={"orthogonal": False}, wall=subdivide(RECT, 7), extract=ex)),
